@@ -42,6 +42,8 @@ type c15Script struct {
 	tokenAlwaysOK bool     // the token endpoint always answers with a token (no choice)
 }
 
+const c15RedirectHost = "redirect-target.example"
+
 type c15RT struct{ s *c15Script }
 
 func c15JSON(status int, body string) *http.Response {
@@ -56,6 +58,20 @@ func (rt c15RT) RoundTrip(req *http.Request) (*http.Response, error) {
 	if !(u.Scheme == "https" || util.IsLoopback(u.Host)) && s.badURL == "" {
 		s.badURL = u.String()
 	}
+	// one more answer at every step: a redirect to the same path on a plain-http, non-loopback host
+	// (which serves the regular document, should the client follow)
+	redirected := u.Host == c15RedirectHost
+	redirect := func(code int) *http.Response {
+		r := c15JSON(code, "")
+		r.Header.Set("Location", "http://"+c15RedirectHost+u.RequestURI())
+		return r
+	}
+	fault := func(name string, n int) int {
+		if redirected {
+			return 0
+		}
+		return s.ch.Fault(name, n)
+	}
 	switch {
 	case strings.Contains(u.Path, "oauth-protected-resource") || u.Path == "/prm-from-challenge":
 		resource := c15MCP
@@ -66,7 +82,7 @@ func (rt c15RT) RoundTrip(req *http.Request) (*http.Response, error) {
 			b, _ := json.Marshal(map[string]any{"resource": res, "authorization_servers": servers, "scopes_supported": []string{"s"}})
 			return string(b)
 		}
-		switch s.ch.Fault("prm-answer", 8) {
+		switch fault("prm-answer", 9) {
 		case 0:
 			as := "https://as.example"
 			if s.prmNamesAS != "" {
@@ -85,6 +101,8 @@ func (rt c15RT) RoundTrip(req *http.Request) (*http.Response, error) {
 			return c15JSON(404, `{}`), nil
 		case 6:
 			return c15JSON(500, `{}`), nil
+		case 8:
+			return redirect(302), nil
 		default:
 			r := c15JSON(200, doc(resource, "https://as-of-html-prm.example"))
 			r.Header.Set("Content-Type", "text/html")
@@ -92,6 +110,9 @@ func (rt c15RT) RoundTrip(req *http.Request) (*http.Response, error) {
 		}
 	case strings.Contains(u.Path, "oauth-authorization-server") || strings.Contains(u.Path, "openid-configuration"):
 		issuer := u.Scheme + "://" + u.Host
+		if redirected {
+			issuer = "https://as.example"
+		}
 		s.asHostsAsked = append(s.asHostsAsked, u.Host)
 		doc := func(variant string, over map[string]any) string {
 			m := map[string]any{
@@ -110,7 +131,7 @@ func (rt c15RT) RoundTrip(req *http.Request) (*http.Response, error) {
 			b, _ := json.Marshal(m)
 			return string(b)
 		}
-		switch s.ch.Fault("asm-answer", 9) {
+		switch fault("asm-answer", 10) {
 		case 0:
 			return c15JSON(200, doc("ok", nil)), nil
 		case 1:
@@ -127,16 +148,20 @@ func (rt c15RT) RoundTrip(req *http.Request) (*http.Response, error) {
 			return c15JSON(200, doc("authz-javascript-loopback", map[string]any{"authorization_endpoint": "javascript://127.0.0.1/%0Aalert(1)"})), nil
 		case 7:
 			return c15JSON(404, `{}`), nil
+		case 9:
+			return redirect(302), nil
 		default:
 			return c15JSON(500, `{}`), nil
 		}
 	case u.Path == "/register":
 		s.registered = true
-		switch s.ch.Fault("registration-answer", 3) {
+		switch fault("registration-answer", 4) {
 		case 0:
 			return c15JSON(201, `{"client_id":"dcr-client","redirect_uris":["http://localhost:1/cb"]}`), nil
 		case 1:
 			return c15JSON(400, `{"error":"invalid_client_metadata"}`), nil
+		case 3:
+			return redirect(307), nil
 		default:
 			return c15JSON(500, `{}`), nil
 		}
@@ -149,14 +174,16 @@ func (rt c15RT) RoundTrip(req *http.Request) (*http.Response, error) {
 		}
 		s.tokenRequests = append(s.tokenRequests, fmt.Sprintf("host=%s doc=%s client_id=%s", u.Host, u.Query().Get("doc"), cid))
 		ta := 0
-		if !s.tokenAlwaysOK {
-			ta = s.ch.Free("token-answer", 3)
+		if !s.tokenAlwaysOK && !redirected {
+			ta = s.ch.Free("token-answer", 4)
 		}
 		switch ta {
 		case 0:
 			return c15JSON(200, `{"access_token":"fresh","token_type":"bearer","expires_in":3600}`), nil
 		case 1:
 			return c15JSON(400, `{"error":"invalid_grant"}`), nil
+		case 3:
+			return redirect(307), nil
 		default:
 			return c15JSON(500, `{}`), nil
 		}
